@@ -1261,7 +1261,9 @@ class KVDef(EntAttribute):
         if self._type is not ValueTypes.SPAWNFLAGS:
             # Spawnflags never use names!
             file.write(': ')
-            _write_longstring(file, custom_syntax, self.disp_name, indent='\t')
+            # A name must be present (a bare ':' makes the parser continue onto the next line),
+            # if there is none use the raw keyvalue name.
+            _write_longstring(file, custom_syntax, self.disp_name or self.name, indent='\t')
 
         default = self.default
         if not default and self.type is ValueTypes.BOOL:
